@@ -41,6 +41,8 @@ def exact(names):
     return ",".join("=" + n for n in names)
 
 
+PROFILE_FILTER = "!INTEGER.RAND,!FLOAT.RAND,!BOOLEAN.RAND,!NAME.RAND,!CODE.RAND,!BOOLVECTOR.RAND,!INTVECTOR.RAND,!FLOATVECTOR.RAND,!EXEC.CMD,!GRAPH."
+
 PROPS = {
     "C04": {
         "scenarios": lambda tier, q: [
@@ -86,7 +88,7 @@ PROPS = {
             {"name": "steps", "args": ["EXEC.,CODE.,INDEX.,INTVECTOR.LOOP,!clean"]},
         ],
         "signature": lambda req: " ".join(req.split(" ")[1:4]) if req.startswith("( loop") else sig_exec(req),
-        "rule": "loop programs run to completion: EXEC.LOOP / CODE.LOOP with n in 0..24 (thorough 0..59) and bodies {INDEX.CURRENT, ( INDEX.CURRENT INTEGER.+ ), nested ( m INDEX.DEFINE EXEC.LOOP INDEX.CURRENT )}, INTVECTOR.LOOP over vectors of length 0..24 with body CODE.FROMINTEGER, each on a clean and on a cluttered state, final state compared with the documented iteration; the combinators IF/K/S/Y/DUP/DO/DO*/QUOTE and INDEX.* by NAME on generated states; control-flow-dense programs single-stepped with every transition validated; non-trivial = the state changed",
+        "rule": "loop programs run to completion: EXEC.LOOP / CODE.LOOP with n in 0..24 (thorough 0..59) and bodies {INDEX.CURRENT, ( INDEX.CURRENT INTEGER.+ ), nested ( m INDEX.DEFINE EXEC.LOOP INDEX.CURRENT )}, INTVECTOR.LOOP over vectors of length 0..24 with body CODE.FROMINTEGER, each on a clean and on a cluttered state, final state compared with the documented iteration; the combinators IF/K/S/Y/DUP/DO/DO*/QUOTE and INDEX.* by NAME on generated states, incl. starved ones (the documented 'NOOP unless at least two / three items are present' rows are part of the reference); control-flow-dense programs single-stepped with every transition validated; non-trivial = the state changed",
         "assumptions": ["a loop body that pops the loop's own index is outside the documented contract (BodyOk)"],
     },
     "C07": {
@@ -159,7 +161,7 @@ PROPS = {
             {"name": "exec", "args": ["GRAPH.", "400" if tier == "quick" else "4000"]},
         ],
         "signature": lambda req: "graphseq" if req.startswith("( graphseq") else sig_exec(req),
-        "rule": "Graph API: every sequence of length 3 (thorough 4) over {add_node, remove_node, add/remove_edge, set_state, set_weight, snapshot, diffsnap} on two initial nodes followed by size and filter queries, and random sequences (<=120 calls) with valid, stale (removed) and never-issued ids, NaN / inf weights, clone then mutate then diff; after every call the result, the graph (both maps) and the structural invariant are compared with the Layer-0 model and with a plain set model; the 19 GRAPH.* instructions by NAME on generated states holding graphs with nodes, edges and emptied edge lists, ids drawn from the graphs or arbitrary; non-trivial = every sequence (each creates nodes) / a transition that changed the state",
+        "rule": "Graph API: every sequence of length 3 (thorough 4) over {add_node, remove_node, add/remove_edge, set_state, set_weight, snapshot, diffsnap} on two initial nodes followed by size and filter queries, and random sequences (<=120 calls) with valid, stale (removed) and never-issued ids, NaN / inf weights, clone then mutate then diff; 600 (thorough 6000) directed diff probes: build, snapshot, apply exactly one change (none / the same weight again / a weight one ulp or 1e-8 away, incl. from +-inf / a state) and diff: empty exactly when nothing changed; after every call the result, the graph (both maps) and the structural invariant are compared with the Layer-0 model and with a plain set model; the 19 GRAPH.* instructions by NAME on generated states holding graphs with nodes, edges and emptied edge lists, ids drawn from the graphs or arbitrary; non-trivial = every sequence (each creates nodes) / a transition that changed the state",
         "exhaustive": True,
         "assumptions": ["node ids are relational to the process-global counter: the model takes the observed id and requires it to be fresh", "GRAPH.PRINT / PRINT*DIFF text depends on HashMap order and the shortest-round-trip float printer: only emptiness is compared"],
     },
@@ -189,9 +191,10 @@ PROPS = {
         ],
         "needs_bin": True,
         "release_pass": True,
-        "release_compare": ["run", "stkgrid"],
+        # every deterministic instruction by NAME on generated states, in a debug and in an optimised build
+        "release_compare": lambda tier: [["exec", PROFILE_FILTER, "40" if tier == "quick" else "400"]] + ([["run"], ["stkgrid"]] if tier == "thorough" else []),
         "signature": lambda req: req.split(" ")[1],
-        "rule": "RAND-free, id-free programs on generated states: run, an unrelated run (touching the RNG and the node counter), run again, then 2/4/8/16 threads released from a barrier each running the same program on its own copy of the state; all final states must coincide and equal the model's run; history independence per instruction: every RAND-free, id-free instruction (24, thorough 120 states each; six times as many, with well-formed operands, for the computation-heavy size-operand instructions) run on a fresh thread, then on this thread after six runs of the SAME instruction on perturbed operands (a cache keyed by part of the operands would be warm), then on another fresh thread; 2/8/16 threads creating 20000 (thorough 100000) nodes each through Graph::add_node and GRAPH.NODE*ADD: ids pairwise distinct; the pushr binary on 60 (thorough 400) terminating programs: last printed EXEC / CODE / INT stacks against the model; source inventory of process-global mutable state and randomness sources; thorough: the run and stack-grid scenarios in a debug and an optimised build must produce identical lines; non-trivial = every case",
+        "rule": "RAND-free, id-free programs on generated states: run, an unrelated run (touching the RNG and the node counter), run again, then 2/4/8/16 threads released from a barrier each running the same program on its own copy of the state; all final states must coincide and equal the model's run; history independence per instruction: every RAND-free, id-free instruction (24, thorough 120 states each; six times as many, with well-formed operands, for the computation-heavy size-operand instructions) run on a fresh thread, then on this thread after six runs of the SAME instruction on perturbed operands (a cache keyed by part of the operands would be warm), then on another fresh thread; 2/8/16 threads creating 20000 (thorough 100000) nodes each through Graph::add_node and GRAPH.NODE*ADD: ids pairwise distinct; the pushr binary on 60 (thorough 400) terminating programs: last printed EXEC / CODE / INT stacks against the model; source inventory of process-global mutable state and randomness sources; build profile: every deterministic instruction by NAME on 40 (thorough 400) generated states each, executed by a debug build (overflow checks on) and by an optimised build (overflow checks off): the two must print identical outcome lines (thorough: also the run and stack-grid scenarios); non-trivial = every case",
         "assumptions": ["interleavings inside a step are excluded by Rust's ownership rules (each thread owns its PushState), not by the model; schedules are those the OS produces", "the only process-global mutable state is the atomic node counter with a single fetch_add site (checked by the source inventory on every run)"],
     },
     "C15": {
